@@ -178,6 +178,18 @@ class Interp:
     def exec(self, i, st):
         k = st["k"]
         env = self.env
+        if st.get("inject") and self.backend == "mg":
+            from mgverif.hooks import REG
+            REG.fault = {"mode": st["inject"], "countdown": int(st.get("inject_at", 0)), "only": st.get("inject_only")}
+            try:
+                return self._exec(i, st)
+            finally:
+                REG.fault = None
+        return self._exec(i, st)
+
+    def _exec(self, i, st):
+        k = st["k"]
+        env = self.env
         if k == "leaf":
             env[st["out"]] = self.leaf(st)
         elif k == "call":
